@@ -383,6 +383,31 @@ def c12_model_type_not_required():
         report("c12_model_type_not_required", False, f"rejected: {ex.message}")
 
 
+@case
+def c13_backslash_x_becomes_live():
+    import aas_core_codegen.xsd.main as X
+    res = {p: X._translate_pattern(p) for p in ["^a\\x2a$", "^\\x24$", "^[\\x5d]$"]}
+    bad = res["^a\\x2a$"][0] == "a*" or res["^\\x24$"][0] == "" or res["^[\\x5d]$"][1] is not None
+    report("c13_backslash_x_becomes_live", bad, str(res))
+
+
+@case
+def c13_illegal_xsd_escapes():
+    import aas_core_codegen.xsd.main as X
+    import xmlschema
+    out = {}
+    for p in ["^\\u00e9$", "^a\\$b$", "^a\\fb$"]:
+        t, e = X._translate_pattern(p)
+        xsd = ('<xs:schema xmlns:xs="http://www.w3.org/2001/XMLSchema"><xs:simpleType name="t"><xs:restriction base="xs:string">'
+               f'<xs:pattern value="{t}"/></xs:restriction></xs:simpleType><xs:element name="e" type="t"/></xs:schema>')
+        try:
+            xmlschema.XMLSchema(xsd)
+            out[p] = f"{t!r}: accepted by xmlschema"
+        except Exception as ex:  # noqa
+            out[p] = f"{t!r}: REJECTED by xmlschema ({str(ex).splitlines()[0][:80]})"
+    report("c13_illegal_xsd_escapes", any("REJECTED" in v for v in out.values()), str(out))
+
+
 def main():
     ap = argparse.ArgumentParser()
     ap.add_argument("--repo", default="/repo")
